@@ -595,3 +595,62 @@ func verifNestedRefs(id string) {
 	}
 	verifReach("end")
 }
+
+//verif:harness id=C02 tier=quick,thorough witness=end bounds="the same reference text in two documents: the root and an external file each have a schema UseB whose property refers to '#/components/schemas/B' (its own file's B, different in the two files), through properties / items / allOf; the root refers to the external UseB from a component sorting before or after its own UseB, or from an operation; each reference resolves to the B of the file that contains it"
+func verifH_C02_same_fragment() {
+	via := []string{`{"type":"object","properties":{"n":%s}}`, `{"type":"array","items":%s}`, `{"allOf":[%s]}`}[verifChoose("via", 3)]
+	use := strings.Replace(via, "%s", `{"$ref":"#/components/schemas/B"}`, 1)
+	files := map[string]string{
+		"/r/x2.json": `{"components":{"schemas":{"B":{"type":"string","minLength":6},"UseB":` + use + `}}}`,
+	}
+	extName := []string{"AExt", "ZExt"}[verifChoose("order", 2)]
+	paths := `{}`
+	comps := `"B":{"type":"integer"},"UseB":` + use
+	if verifChoose("from", 2) == 0 {
+		comps += `,"` + extName + `":{"$ref":"x2.json#/components/schemas/UseB"}`
+	} else {
+		paths = `{"/a":{"get":{"operationId":"op","responses":{"200":{"description":"d","content":{"application/json":{"schema":{"$ref":"x2.json#/components/schemas/UseB"}}}}}}}}`
+	}
+	rootText := `{"openapi":"3.0.0","info":{"title":"t","version":"1"},"paths":` + paths + `,"components":{"schemas":{` + comps + `}}}`
+	rootLoc := &url.URL{Path: "/r/doc.json"}
+	loader := NewLoader()
+	loader.IsExternalRefsAllowed = true
+	loader.ReadFromURIFunc = func(_ *Loader, u *url.URL) ([]byte, error) {
+		if u.Path == rootLoc.Path {
+			return []byte(rootText), nil
+		}
+		if t, ok := files[u.Path]; ok {
+			return []byte(t), nil
+		}
+		return nil, errors.New("no such file")
+	}
+	doc, err := loader.LoadFromDataWithPath([]byte(rootText), rootLoc)
+	verifAssert(err == nil && doc != nil, "C02 same fragment: the document loads")
+	if err != nil || doc == nil {
+		return
+	}
+	inner := func(r *SchemaRef) *SchemaRef {
+		if r == nil || r.Value == nil {
+			return nil
+		}
+		switch {
+		case r.Value.Properties["n"] != nil:
+			return r.Value.Properties["n"]
+		case r.Value.Items != nil:
+			return r.Value.Items
+		case len(r.Value.AllOf) == 1:
+			return r.Value.AllOf[0]
+		}
+		return nil
+	}
+	own := inner(doc.Components.Schemas["UseB"])
+	verifAssert(own != nil && own.Value != nil && own.Value.Type.Is("integer"), "C02 same fragment: the root's own reference resolves to the root's B")
+	var ext *SchemaRef
+	if r := doc.Components.Schemas[extName]; r != nil {
+		ext = inner(r)
+	} else if pi := doc.Paths.Value("/a"); pi != nil {
+		ext = inner(pi.Get.Responses.Value("200").Value.Content["application/json"].Schema)
+	}
+	verifAssert(ext != nil && ext.Value != nil && ext.Value.Type.Is("string") && ext.Value.MinLength == 6, "C02 same fragment: the reference inside the external file resolves to that file's B")
+	verifReach("end")
+}
